@@ -588,8 +588,10 @@ pub fn run_worker(check: &dyn Check, a: &WorkerArgs) -> Ctx {
     start_cpu_watchdog(check.case_cpu_limit_s());
     cx.verbose = a.verbose;
     let total = check.cases(a.tier);
-    let start = Instant::now();
-    let budget = Duration::from_secs(a.budget_s);
+    // the budget is CPU time of this worker, not wall time: on a loaded machine a run takes longer
+    // but executes the same cases (the coordinator's wall-clock watchdog is separate and generous)
+    let start_cpu = process_cpu_ns();
+    let budget_ns = a.budget_s.saturating_mul(1_000_000_000);
     let cur_path = a.out.with_extension("cur");
     if a.only_case.is_none() && check.panic_is_violation() {
         set_panic_side_file(a.out.with_extension("lastpanic"));
@@ -609,7 +611,7 @@ pub fn run_worker(check: &dyn Check, a: &WorkerArgs) -> Ctx {
             let _ = std::fs::write(&a.out, serde_json::to_string(&ctx_to_json(&cx)).unwrap());
             last_flush = Instant::now();
         }
-        if a.only_case.is_none() && start.elapsed() > budget {
+        if a.only_case.is_none() && process_cpu_ns().saturating_sub(start_cpu) > budget_ns {
             cx.count("stopped_by_budget");
             break;
         }
